@@ -5,6 +5,7 @@ import (
 	"strings"
 	"time"
 
+	"github.com/remieven/ysgo/variable"
 	"github.com/remieven/ysgo/verifx/internal/explore"
 	"github.com/remieven/ysgo/verifx/internal/report"
 	yc "github.com/remieven/ysgo/verifx/internal/yarncore"
@@ -16,10 +17,10 @@ func init() {
 			Property: "C04",
 			Rule: "every line assembled from <=3 parts (quick) / <=4 parts (thorough) of the full part alphabet, and <=4 / <=5 parts of a reduced alphabet (one representative per class): text chunks (letters, digit, inner space, each of < > / } = - : ! ? . , ' \" ( ) $ as single characters, multi-byte chunks), " +
 				"every escapable character escaped (\\\\ \\< \\> \\{ \\} \\# \\/ \\[ \\]), inline expressions of each type (integral and fractional numbers with unambiguous display, booleans, strings incl. empty and with spaces, variables), x 0-2 trailing hashtags x optional trailing comment x optional trailing space; " +
-				"the same for option labels with every assignment of conditions {none,true,false,$b,$f} to groups of 1-3 options; lines and options re-rendered in a loop with changing variable values; constructive oracle (concatenation of resolved parts, trimmed; tags in order; Disabled iff condition false); " +
+				"the same for option labels with every assignment of conditions {none,true,false,$b,$f} to groups of 1-3 options; lines and options re-rendered in a loop with changing variable values; a line shown right after a line or option whose preparation failed (expression error after some text, markup error); constructive oracle (concatenation of resolved parts, trimmed; tags in order; Disabled iff condition false); " +
 				"a case is one line / option group; non-trivial = contains an escape, an expression, a tag, a comment or a condition",
 			StatesMean:  "distinct generated lines / option groups; transitions = real Next calls",
-			Assumptions: []string{"unescaped [ and ] are markup (C13) and are not generated", "number display compared only where the property fixes it (magnitude in [1e-4,1e15) or zero)", "canonical layout: a line cannot start with whitespace"},
+			Assumptions: []string{"unescaped [ and ] are markup (C13) and are not generated", "surrounding whitespace includes the Unicode spaces U+3000 and U+00A0 (they are stripped like ASCII spaces)", "number display compared only where the property fixes it (magnitude in [1e-4,1e15) or zero)", "canonical layout: a line cannot start with whitespace"},
 		},
 		QuickBudget: 70 * time.Second, ThoroughBudget: 14 * time.Minute, CrashIsViolation: true,
 		Run: runC04,
@@ -38,14 +39,14 @@ func inl(e *yc.Expr) linePart       { return linePart{yc.Part{E: e}, "expr"} }
 func c04Parts() (full, reduced []linePart) {
 	full = []linePart{
 		lit("a"), lit("ab c"), lit("7"), lit(" "), lit("<"), lit(">"), lit("/"), lit("}"), lit("="), lit("-"), lit(":"), lit("!"), lit("?"), lit("."), lit(","),
-		lit("'"), lit("\""), lit("("), lit(")"), lit("$"), lit("é"), lit("日本"), lit("😀"),
+		lit("'"), lit("\""), lit("("), lit(")"), lit("$"), lit("é"), lit("日本"), lit("😀"), lit("\u3000"), lit("\u00a0"),
 		esc(`\\`, `\`), esc(`\<`, `<`), esc(`\>`, `>`), esc(`\{`, `{`), esc(`\}`, `}`), esc(`\#`, `#`), esc(`\/`, `/`), esc(`\[`, `[`), esc(`\]`, `]`),
 		inl(yc.ENumber(1)), inl(yc.ENumber(2.5)), inl(yc.EBinary("+", yc.ENumber(0.1), yc.ENumber(0.2))), inl(yc.EBinary("/", yc.ENumber(1), yc.ENumber(4))),
-		inl(yc.ENumber(-3)), inl(yc.ENumber(100000)), inl(yc.ENumber(0.0001)), inl(yc.ENumber(123456789012)), inl(yc.EBinary("/", yc.ENumber(10), yc.ENumber(4))),
+		inl(yc.ENumber(-3)), inl(yc.ENumber(-0.5)), inl(yc.ENumber(-7.5)), inl(yc.EBinary("-", yc.EBinary("/", yc.ENumber(1), yc.ENumber(3)), yc.ENumber(1))), inl(yc.ENumber(3.0000000001)), inl(yc.ENumber(100000)), inl(yc.ENumber(0.0001)), inl(yc.ENumber(123456789012)), inl(yc.EBinary("/", yc.ENumber(10), yc.ENumber(4))),
 		inl(yc.EBoolean(true)), inl(yc.EBoolean(false)), inl(yc.EString("s")), inl(yc.EString("")), inl(yc.EString("x y")), inl(yc.EString(" lead")),
 		inl(yc.EVariable("n")), inl(yc.EVariable("b")), inl(yc.EVariable("s")),
 	}
-	reduced = []linePart{lit("a"), lit(" "), lit("<"), lit("/"), lit("-"), lit("é"), esc(`\\`, `\`), esc(`\#`, `#`), esc(`\[`, `[`), esc(`\{`, `{`),
+	reduced = []linePart{lit("a"), lit(" "), lit("\u3000"), lit("<"), lit("/"), lit("-"), lit("é"), esc(`\\`, `\`), esc(`\#`, `#`), esc(`\[`, `[`), esc(`\{`, `{`),
 		inl(yc.ENumber(2.5)), inl(yc.EBoolean(true)), inl(yc.EString("x y")), inl(yc.EVariable("n"))}
 	return
 }
@@ -226,6 +227,90 @@ func runC04(ctx *report.Ctx) {
 		if mm != nil {
 			ctx.Violation(report.Violation{Clause: "options-" + mm.Clause, Witness: "options:" + w, Detail: fmt.Sprintf("%s; observed trace %v", mm.Detail, mm.Trace),
 				Choices: c.Choices(), Part: "options", Extra: map[string]any{"scripts": srcs, "go_test": goTestFor(srcs, "abc", mm.Args, mm.Detail)}})
+		}
+	})
+
+	// after an error: a line (or option) whose inline expression fails after some text, then the next line:
+	// whatever was assembled for the failed line must not show up in the line returned next
+	failing := []*yc.LineSpec{
+		{Parts: []yc.Part{{Src: "You own ", Want: "You own "}, {E: yc.EVariable("nope")}, {Src: " coins", Want: " coins"}}},
+		{Parts: []yc.Part{{Src: "x ", Want: "x "}, {E: yc.EVariable("n")}, {Src: " y ", Want: " y "}, {E: yc.EBinary("+", yc.ENumber(1), yc.EString("a"))}}},
+		{Parts: []yc.Part{{E: yc.EVariable("nope")}}},
+		{Parts: []yc.Part{{Src: "[a]unterminated [b", Want: ""}}}, // markup error
+	}
+	part(ctx, "after-error", -1, func(c *explore.Chooser) {
+		f := failing[c.Choose(len(failing), "failing-line")]
+		asOption := c.Choose(2, "failing-as-option") == 1
+		nextAsOption := c.Choose(2, "next-as-option") == 1
+		np := 1 + c.Choose(2, "nparts")
+		next := &yc.LineSpec{}
+		for i := 0; i < np; i++ {
+			next.Parts = append(next.Parts, reduced[c.Choose(len(reduced), "part")].p)
+		}
+		if !c.Mine() {
+			return
+		}
+		if !writable(litSource(next), nextAsOption) {
+			return
+		}
+		if src := strings.TrimLeft(litSource(next), " \t"); strings.HasPrefix(src, `\[`) || strings.HasPrefix(src, `\]`) {
+			return // the open known finding (a line starting with an escaped bracket does not load) is the subject of the line parts
+		}
+		var body []*yc.Stmt
+		if asOption {
+			body = append(body, yc.Options(&yc.Option{Line: f}), yc.Line("between"))
+		} else {
+			body = append(body, yc.LineOf(f))
+		}
+		if nextAsOption {
+			body = append(body, yc.Options(&yc.Option{Line: next}))
+		} else {
+			body = append(body, yc.LineOf(next))
+		}
+		p := &yc.Program{Nodes: []*yc.Node{{Title: "A", Body: body}}}
+		srcs := yc.Render(p, nil)
+		ctx.Current("after-error: " + srcs[0])
+		m := yc.NewMachine(p, c04Host.Model())
+		wantText, _, _ := "", false, error(nil)
+		{
+			mm := yc.NewMachine(&yc.Program{Nodes: []*yc.Node{{Title: "A", Body: []*yc.Stmt{yc.LineOf(next)}}}}, c04Host.Model())
+			wantText = mm.Start().Text
+		}
+		_ = m
+		fr := yc.FreeWalk(srcs, yc.FreeOpts{MaxSteps: 5, NewStorer: func() variable.Storer {
+			st := variable.NewInMemoryStorer()
+			st.SetNumberValue("n", 42)
+			st.SetBooleanValue("b", true)
+			st.SetStringValue("s", "str")
+			st.SetBooleanValue("f", false)
+			return st
+		}})
+		ctx.AddEvals(1, 1)
+		ctx.AddStates(1)
+		ctx.AddTransitions(fr.Steps)
+		ctx.AddTraces(fr.Paths)
+		bad := ""
+		switch {
+		case fr.LoadErr != nil || fr.LoadPanic != "":
+			bad = fmt.Sprintf("the script does not load: %v %s", fr.LoadErr, fr.LoadPanic)
+		case fr.Panic != "":
+			bad = fr.Panic
+		case fr.Errors == 0:
+			bad = "the failing line did not fail: " + tracesString(fr)
+		default:
+			// every text shown after the error must be one of the texts of the script: "between", the next line, or its option
+			for _, tr := range fr.Traces {
+				for _, el := range strings.Split(strings.SplitN(tr, " | ", 2)[0], " → ") {
+					if strings.HasPrefix(el, "line[") || strings.HasPrefix(el, "options[") {
+						if !strings.Contains(el, fmt.Sprintf("%q", wantText)) && !strings.Contains(el, "\"between\"") {
+							bad = fmt.Sprintf("after the error the runner showed %s; the only texts of the script are \"between\" and %q", el, wantText)
+						}
+					}
+				}
+			}
+		}
+		if bad != "" {
+			ctx.Violation(report.Violation{Clause: "line-after-error", Witness: "lines:" + strings.ReplaceAll(srcs[0], "\n", " / "), Detail: bad, Choices: c.Choices(), Part: "after-error", Extra: map[string]any{"scripts": srcs}})
 		}
 	})
 
